@@ -744,6 +744,62 @@ pub open spec fn scnt(t: Tree, tv: int) -> int decreases t {
 }
 pub broadcast proof fn lemma_scnt_mk(l: u32, a: Tree, b: Tree, tv: int)
     ensures #[trigger] scnt(mk(l, a, b), tv) == (scnt(a, tv) + scnt(b, tv)) / 2 {}
+
+/// number of assignments to the levels k..n-1 that satisfy `t` (all levels of `t` are >= k): Shannon expansion on level k
+pub open spec fn cnt(t: Tree, k: int, n: int) -> int decreases n - k {
+    if k >= n { if t == Tree::Leaf(true) { 1 } else { 0 } }
+    else if t is Inner && top(t) == k { cnt(then_of(t), k + 1, n) + cnt(else_of(t), k + 1, n) }
+    else { 2 * cnt(t, k + 1, n) }
+}
+/// the value computed by the sat_count recursion with terminal value 2^(n-k+m) is 2^m times the number of satisfying
+/// assignments over levels k..n-1: every halving in the recursion is exact
+//@lemma name=lemma_scnt_is_count props=C12
+pub proof fn lemma_scnt_is_count(t: Tree, k: int, n: int, m: nat)
+    requires ok(t, n), 0 <= k <= n, t is Inner ==> k <= top(t),
+    ensures scnt(t, pow2((n - k + m) as nat)) == pow2(m) * cnt(t, k, n),
+    decreases n - k,
+{
+    if k >= n {
+        assert(t is Leaf);
+        assert(pow2(m) * 1 == pow2(m)) by (nonlinear_arith);
+        assert(pow2(m) * 0 == 0) by (nonlinear_arith);
+    } else {
+        assert(pow2((m + 1) as nat) == 2 * pow2(m));
+        let p = pow2((n - k + m) as nat);
+        assert((n - (k + 1) + (m + 1)) as nat == (n - k + m) as nat);
+        if t is Inner && top(t) == k {
+            let (a, b) = (then_of(t), else_of(t));
+            lemma_scnt_is_count(a, k + 1, n, (m + 1) as nat);
+            lemma_scnt_is_count(b, k + 1, n, (m + 1) as nat);
+            let (ca, cb) = (cnt(a, k + 1, n), cnt(b, k + 1, n));
+            assert(scnt(t, p) == (scnt(a, p) + scnt(b, p)) / 2);
+            assert(scnt(a, p) + scnt(b, p) == 2 * (pow2(m) * (ca + cb))) by (nonlinear_arith)
+                requires scnt(a, p) == (2 * pow2(m)) * ca, scnt(b, p) == (2 * pow2(m)) * cb;
+            assert(pow2(m) * cnt(t, k, n) == pow2(m) * (ca + cb));
+        } else {
+            lemma_scnt_is_count(t, k + 1, n, (m + 1) as nat);
+            let c = cnt(t, k + 1, n);
+            assert((2 * pow2(m)) * c == pow2(m) * (2 * c)) by (nonlinear_arith);
+        }
+    }
+}
+/// sat_count(vars) with terminal value 2^vars counts the satisfying assignments over `vars` variables exactly
+//@lemma name=lemma_sat_count_exact props=C12
+pub proof fn lemma_sat_count_exact(t: Tree, vars: int)
+    requires ok(t, vars), vars >= 0,
+    ensures scnt(t, pow2(vars as nat)) == cnt(t, 0, vars),
+{
+    lemma_scnt_is_count(t, 0, vars, 0);
+    assert(pow2(0) * cnt(t, 0, vars) == cnt(t, 0, vars)) by (nonlinear_arith) requires pow2(0) == 1;
+}
+pub broadcast proof fn lemma_sat_count_exact_b(t: Tree, vars: u32)
+    requires wf(t), #[trigger] below(t, vars as int),
+    ensures #[trigger] scnt(t, pow2(vars as nat)) == cnt(t, 0, vars as int),
+{
+    lemma_sat_count_exact(t, vars as int);
+}
+pub broadcast proof fn lemma_pow2_mul1(k: nat) ensures 1 * #[trigger] pow2(k) == pow2(k) {}
+pub broadcast group count_lemmas2 { lemma_sat_count_exact_b, lemma_pow2_mul1 }
 pub type NodeID = usize;
 /// the diagram stored under a node id (ASSUMED: a node id denotes one diagram within a GC epoch; the cache is cleared
 /// by `clear_if_invalid` when the epoch or the variable count changes)
@@ -762,6 +818,14 @@ impl<N> NodeMap<N> {
     { unimplemented!() }
 }
 pub struct SatCountCache<N, S> { pub map: NodeMap<N>, pub cache_all: bool, pub s: Ghost<S> }
+impl<N: SatCountNumber, S> SatCountCache<N, S> {
+    /// ASSUMED (history): the cache is emptied when the GC epoch or the variable count changed; otherwise its entries were
+    /// computed in this epoch with the same variable count, i.e. with terminal value 2^vars (integer number types)
+    #[verifier::external_body]
+    pub fn clear_if_invalid<M: Manager>(&mut self, manager: &M, vars: LevelNo)
+        ensures cache_valid(final(self), pow2(vars as nat)), final(self).cache_all == old(self).cache_all,
+    { unimplemented!() }
+}
 pub open spec fn cache_valid<N: SatCountNumber, S>(c: &SatCountCache<N, S>, tv: int) -> bool {
     forall|id: NodeID| #[trigger] c.map@.contains_key(id) ==> c.map@[id].nv() == scnt(tree_of(id), tv)
 }
@@ -1030,7 +1094,7 @@ impl BDDOp {
 
 mod apply_rec {
 use super::*;
-broadcast use {leaf_lemmas, quant_lemmas, quant2_lemmas, restrict_lemmas, subst_lemmas, pick_lemmas, count_lemmas};
+broadcast use {leaf_lemmas, quant_lemmas, quant2_lemmas, restrict_lemmas, subst_lemmas, pick_lemmas, count_lemmas, count_lemmas2};
 //@fn file=crates/oxidd-rules-bdd/src/simple/apply_rec.rs path=fn:apply_not nodecr expect=R5:1 props=C02,C06
 //@spec
     requires edge_ok::<M::Edge>(), ok(f.view(), manager.num_levels_spec()),
@@ -1186,6 +1250,13 @@ fn sat_count_edge__inner<M: Manager<Terminal = BDDTerminal>, N: SatCountNumber, 
         // the literals written describe a cube that implies the function
         forall|env: Env| cube_allows(manager, final(cube)@, env, top(edge.view())) ==> #[trigger] sem(edge.view(), env),
     decreases edge.view(),
+//@end
+//@fn file=crates/oxidd-rules-bdd/src/simple/apply_rec.rs path=impl:BooleanFunction~for~BDDFunction<F>/fn:sat_count_edge hoist=inner>sat_count_edge__inner props=C12
+//@header
+fn sat_count_edge<M: Manager<Terminal = BDDTerminal>, N: SatCountNumber, S>(manager: &M, edge: &M::Edge, vars: LevelNo, cache: &mut SatCountCache<N, S>) -> (res: N)
+//@spec
+    requires num_ok::<N>(), N::MIN_EXP == 0, ok(edge.view(), vars as int),
+    ensures res.nv() == cnt(edge.view(), 0, vars as int),
 //@end
 //@fn file=crates/oxidd-rules-bdd/src/simple/apply_rec.rs path=impl:BooleanFunction~for~BDDFunction<F>/fn:and_edge props=C02
 //@header
